@@ -100,6 +100,7 @@ fn main() {
         "C10" => dispatch(checks::c10::C10, tier, seed, replay),
         "C11" => dispatch(checks::c11::C11, tier, seed, replay),
         "C13" => dispatch(checks::c13::C13, tier, seed, replay),
+        "C18" => dispatch(checks::c18::C18, tier, seed, replay),
         _ => {
             eprintln!("unknown property id {id}");
             2
